@@ -444,14 +444,15 @@ theorem allMatches_spec (P : Pattern) (seq : Bytes) (circular : Bool) (begin len
     · exact Or.inr ⟨hi, hsd⟩
 
 /-- **`BestMatch`** on a linear sequence, budget below the sentinel: when it reports a match, the raw hit list is not empty,
-the selected raw hit `best` is its leftmost hit of minimal error level and lies inside the sequence, and the result is
+the selected raw hit `best` is its leftmost hit of minimal error level, ends inside the sequence and has a non-negative
+start unless it is going to be re-aligned (indel mode, at least one error: "shifted" start), and the result is
 `best` itself (no error, or mismatch-only mode) or — indel mode — a span inside the sequence whose reported error count is
 the edit distance between the pattern string and that span. -/
 theorem bestMatch_spec (P : Pattern) (seq : Bytes) (begin length : Int) (s e k : Int) (hmax : P.maxerr < 10000)
     (h : bestMatch P seq false begin length = .ok (s, e, k, true)) :
     let res := findAllIndex P seq false begin length
     res ≠ [] ∧ bestOf res ∈ res ∧ (∀ m ∈ res, (bestOf res).2.2 ≤ m.2.2) ∧
-      0 ≤ (bestOf res).1 ∧ (bestOf res).2.1 ≤ (seq.length : Int) ∧
+      (0 ≤ (bestOf res).1 ∨ (P.hasIndel = true ∧ (bestOf res).2.2 ≠ 0)) ∧ (bestOf res).2.1 ≤ (seq.length : Int) ∧
       (((s, e, k) = bestOf res ∧ ((bestOf res).2.2 = 0 ∨ P.hasIndel = false)) ∨
        (P.hasIndel = true ∧ (bestOf res).2.2 ≠ 0 ∧ SpanDist P seq (s, e, k))) := by
   intro res
@@ -474,8 +475,19 @@ theorem bestMatch_spec (P : Pattern) (seq : Bytes) (begin length : Int) (s e k :
     split at h
     · simp at h
     · rename_i hin
-      simp only [Bool.or_eq_true, decide_eq_true_eq, not_or, Int.not_lt, Int.not_lt] at hin
-      refine ⟨hin.1, by have := hin.2; omega, ?_⟩
+      simp only [Bool.or_eq_true, Bool.and_eq_true, decide_eq_true_eq, not_or, not_and, beq_iff_eq,
+        Bool.not_eq_true', Int.not_lt] at hin
+      have hstart : 0 ≤ (bestOf res).1 ∨ (P.hasIndel = true ∧ (bestOf res).2.2 ≠ 0) := by
+        by_cases h0 : (bestOf res).1 < 0
+        · right
+          have := hin.1 h0
+          constructor
+          · cases hI : P.hasIndel with
+            | true => rfl
+            | false => exact absurd hI this.2
+          · exact this.1
+        · left; omega
+      refine ⟨hstart, by have := hin.2; omega, ?_⟩
       split at h
       · rename_i hc
         simp only [Bool.or_eq_true, beq_iff_eq, Bool.not_eq_true'] at hc
